@@ -15,6 +15,8 @@ from harness.session import Session
 
 PROP = "C07"
 LEVEL = "exploration"
+TECHNIQUE = 'modal interpreter over emitted lines vs public GState properties after every call'
+LEVEL_TEXT = 'Held on random full-API histories with grid + random arguments; every field is compared after every call.'
 RULE = ("random full-API histories (50-70 calls, numeric arguments from a finite grid plus random "
         "values, S/F words on moves while the tool runs, F via probe, temperatures via halt(S=/R=), "
         "power_on after tool_off, unit switches); every state field compared after every call; "
